@@ -1,7 +1,7 @@
 """C07 - code generation happens only after an error-free compilation (main.rs, compilation_state.rs, lib.rs)."""
 import re
 from mirlib import AnchorMissing, op_place, path_matches, const_int, is_bare
-from helpers import (branches_on_call, branches_on_field, ungated_reach, chain, calls_matching, field_accesses,
+from helpers import (vexpr, branches_on_call, branches_on_field, ungated_reach, chain, calls_matching, field_accesses,
                      must_pass, origin_calls, origin_summary)
 import gating
 import levels
@@ -164,6 +164,13 @@ def r_exit_status(r, prog):
     if not zts:
         raise AnchorMissing('no branch in main tests the error count returned by get_totals against zero')
     z = zts[0]
+    # ... and nothing else: the tested count is the second component of get_totals(..) on every path, not a value that some path replaces
+    # by a constant (an output format, an option)
+    shown = vexpr(main, z['value'], depth=24)
+    if re.match(r'^get_totals\(.*\)\.1$', shown) and 'phi(' not in shown.split('into_updated(')[0]:
+        r.ok('the count tested for the exit status is get_totals(..).1 on every path')
+    else:
+        r.finding('error-count-replaced-on-some-path', main.span, 'the count that decides the exit status is %s: on some path it is not the number of error diagnostics emitted (a run that reports errors can exit 0)' % shown[:160])
     n_succ = n_fail = 0
     for d in main.defs_of(0):
         if d[0] == 'assign':
